@@ -40,6 +40,7 @@ func init() {
 			c12Run(c)
 		},
 		Replay: c12Replay,
+		Post:   schedPost,
 	}
 }
 
